@@ -12,8 +12,9 @@ ROUND4 = '--round4' in sys.argv
 ROUND5 = '--round5' in sys.argv
 ROUND6 = '--round6' in sys.argv
 ROUND7 = '--round7' in sys.argv
-SRC = '/tmp/seed7-C*/[AB]' if ROUND7 else '/tmp/seed6-C*/[AB]' if ROUND6 else '/tmp/seed5-C*/[AB]' if ROUND5 else '/tmp/seed4-C*/[AB]' if ROUND4 else '/tmp/seed3-C*/[AB]' if ROUND3 else ('/tmp/seed2-C*/[AB]' if ROUND2 else '/tmp/seed-C*/[AB]')
-VMAP = {'A': 'M', 'B': 'N'} if ROUND7 else {'A': 'K', 'B': 'L'} if ROUND6 else {'A': 'I', 'B': 'J'} if ROUND5 else {'A': 'G', 'B': 'H'} if ROUND4 else {'A': 'E', 'B': 'F'} if ROUND3 else ({'A': 'C', 'B': 'D'} if ROUND2 else {'A': 'A', 'B': 'B'})
+ROUND8 = '--round8' in sys.argv
+SRC = '/tmp/seed8-C*/[AB]' if ROUND8 else '/tmp/seed7-C*/[AB]' if ROUND7 else '/tmp/seed6-C*/[AB]' if ROUND6 else '/tmp/seed5-C*/[AB]' if ROUND5 else '/tmp/seed4-C*/[AB]' if ROUND4 else '/tmp/seed3-C*/[AB]' if ROUND3 else ('/tmp/seed2-C*/[AB]' if ROUND2 else '/tmp/seed-C*/[AB]')
+VMAP = {'A': 'O', 'B': 'P'} if ROUND8 else {'A': 'M', 'B': 'N'} if ROUND7 else {'A': 'K', 'B': 'L'} if ROUND6 else {'A': 'I', 'B': 'J'} if ROUND5 else {'A': 'G', 'B': 'H'} if ROUND4 else {'A': 'E', 'B': 'F'} if ROUND3 else ({'A': 'C', 'B': 'D'} if ROUND2 else {'A': 'A', 'B': 'B'})
 
 def run_checks():
     procs = {p: subprocess.Popen(['/verif/bin/bornocheck', '-property', p, '-scratch'], stdout=subprocess.PIPE, stderr=subprocess.STDOUT) for p in props}
@@ -25,7 +26,7 @@ def run_checks():
     return res
 
 for sd in sorted(glob.glob(SRC)):
-    pid, var = sd.split('/')[2].replace('seed7-', '').replace('seed6-', '').replace('seed5-', '').replace('seed4-', '').replace('seed3-', '').replace('seed2-', '').replace('seed-', ''), VMAP[sd.split('/')[3]]
+    pid, var = sd.split('/')[2].replace('seed8-', '').replace('seed7-', '').replace('seed6-', '').replace('seed5-', '').replace('seed4-', '').replace('seed3-', '').replace('seed2-', '').replace('seed-', ''), VMAP[sd.split('/')[3]]
     name = f'{pid}-{var}'
     if only and name not in only:
         continue
